@@ -5,17 +5,37 @@ package mqtt
 // Contracts for BaseClient: serve loop (C04, C06, C07), write (C05, C10), signaller
 // lookups (C07). Comments only; see verif_contracts_codec.go.
 
-// ---- guard table (C10): which lock protects which field -------------------------------
+// ---- guard table (C10): every field of the shared types is classified -------------------
+//   by mu1 mu2 [readrole r] [stable]  writes hold all listed locks (write mode), reads hold any of them
+//                                     (or run in goroutine role r); without "stable" the verifier treats the
+//                                     field as changed by others at every acquisition
+//   role r | atomic | config | lock   see DESIGN.md section 4.C10
+//@ shared BaseClient signaller RetryClient reconnectClient firstError
+//@ guard BaseClient.Transport config
+//@ guard BaseClient.ConnState config
+//@ guard BaseClient.MaxPayloadLen config
 //@ guard BaseClient.handler by mu
+//@ guard BaseClient.sig by muConnecting readrole reader readphase connected stable
+//@ guard BaseClient.mu lock
 //@ guard BaseClient.connState by mu
 //@ guard BaseClient.err by muErr
+//@ guard BaseClient.muErr lock
+//@ guard BaseClient.connClosed by mu muConnecting readrole reader readphase connected stable
+//@ guard BaseClient.muConnecting lock
+//@ guard BaseClient.muWrite lock
+//@ guard BaseClient.idLast atomic
+//@ guard BaseClient.muStats lock
 //@ guard BaseClient.stats by muStats
+//@ guard signaller.chConnAck by mu
 //@ guard signaller.chPingResp by mu
-//@ guard signaller.chPubAck by mu
-//@ guard signaller.chPubRec by mu
-//@ guard signaller.chPubComp by mu
-//@ guard signaller.chSubAck by mu
-//@ guard signaller.chUnsubAck by mu
+//@ guard signaller.chPubAck by mu rwrole reader
+//@ guard signaller.chPubRec by mu rwrole reader
+//@ guard signaller.chPubComp by mu rwrole reader
+//@ guard signaller.chSubAck by mu rwrole reader
+//@ guard signaller.chUnsubAck by mu rwrole reader
+//@ guard signaller.mu lock
+// the byte stream on the transport is a concatenation of whole packets: every Write holds muWrite
+//@ guardcall BaseClient.Transport Write by muWrite
 
 // ---- channel invariants (rely/guarantee): waiter channels carry non-nil packets and are never closed.
 // Guarantee side: obligation chan.nonnil at every send, chan.neverclosed at every close.
@@ -105,6 +125,7 @@ package mqtt
 
 
 //@ func (*signaller).PubAck
+//@   role reader
 //@   mode int
 //@   props C07
 //@   requires s != nil
@@ -114,6 +135,7 @@ package mqtt
 //@        return mapHas(s.chPubAck, k) == (k != id && snapHas(guardSnap(s.chPubAck), k)) && (!mapHas(s.chPubAck, k) || s.chPubAck[k] == snapGet(guardSnap(s.chPubAck), k)) })
 
 //@ func (*signaller).PubRec
+//@   role reader
 //@   mode int
 //@   props C07
 //@   requires s != nil
@@ -123,6 +145,7 @@ package mqtt
 //@        return mapHas(s.chPubRec, k) == (k != id && snapHas(guardSnap(s.chPubRec), k)) && (!mapHas(s.chPubRec, k) || s.chPubRec[k] == snapGet(guardSnap(s.chPubRec), k)) })
 
 //@ func (*signaller).PubComp
+//@   role reader
 //@   mode int
 //@   props C07
 //@   requires s != nil
@@ -132,6 +155,7 @@ package mqtt
 //@        return mapHas(s.chPubComp, k) == (k != id && snapHas(guardSnap(s.chPubComp), k)) && (!mapHas(s.chPubComp, k) || s.chPubComp[k] == snapGet(guardSnap(s.chPubComp), k)) })
 
 //@ func (*signaller).SubAck
+//@   role reader
 //@   mode int
 //@   props C07
 //@   requires s != nil
@@ -141,6 +165,7 @@ package mqtt
 //@        return mapHas(s.chSubAck, k) == (k != id && snapHas(guardSnap(s.chSubAck), k)) && (!mapHas(s.chSubAck, k) || s.chSubAck[k] == snapGet(guardSnap(s.chSubAck), k)) })
 
 //@ func (*signaller).UnsubAck
+//@   role reader
 //@   mode int
 //@   props C07
 //@   requires s != nil
@@ -150,18 +175,21 @@ package mqtt
 //@        return mapHas(s.chUnsubAck, k) == (k != id && snapHas(guardSnap(s.chUnsubAck), k)) && (!mapHas(s.chUnsubAck, k) || s.chUnsubAck[k] == snapGet(guardSnap(s.chUnsubAck), k)) })
 
 //@ func (*signaller).ConnAck
+//@   role reader
 //@   mode int
 //@   props C07
 //@   inline
 //@   requires s != nil
 
 //@ func (*signaller).PingResp
+//@   role reader
 //@   mode int
 //@   props C07
 //@   inline
 //@   requires s != nil
 
 //@ func (*BaseClient).serve
+//@   role reader
 //@   mode int
 //@   props C04 C06 C07 C17
 //@   maxpaths 20000
@@ -269,6 +297,7 @@ package mqtt
 //@        evArg[error]("callback:func(ConnState, error)", 0, 1) == evRet[error]("(*BaseClient).Err", 0, 0)
 
 //@ func (*BaseClient).Connect$1
+//@   role reader
 //@   mode int
 //@   props C06 C11 C16
 //@   requires c != nil && c.sig != nil && c.Transport != nil && c.connClosed != nil && !closed(c.connClosed)
@@ -338,7 +367,7 @@ package mqtt
 //@   mode int
 //@   props C16 C17
 //@   inline
-//@   requires c != nil
+//@   requires c != nil && holds(&c.muConnecting)
 //@   assigns c.sig; c.connClosed; c.idLast
 //@   ensures[C16] c.sig != nil && fresh(c.sig) && c.connClosed != nil && fresh(c.connClosed) && !closed(c.connClosed)
 
